@@ -6,8 +6,13 @@ Three artefacts are compared on every case (one raw client request + rule + pipe
   spec   `Heimdall.ProxyFwd.Spec.violations` evaluated by the Lean driver on what the *implementation* forwarded
 """
 import collections
+import concurrent.futures
 import copy
 import json
+import os
+import shutil
+import subprocess
+import time
 
 import gen_proxyfwd
 import vlib
@@ -25,16 +30,57 @@ DEVIATIONS = {
 }
 
 
+DRIVER = None
+IMPL_PROCESSES = 4
+
+
+def driver_cmd():
+    return DRIVER or vlib.driver_cmd()
+
+
+def pin_driver(R):
+    """The Lean project is shared: another check may relink `driver` while this one runs (the file is absent for a
+    moment). Work with a private copy of the executable this run has just built."""
+    global DRIVER
+    src = vlib.driver_cmd()[0]
+    dst = os.path.join(R.tmp, "driver")
+    for _ in range(60):
+        try:
+            shutil.copy2(src, dst)
+            # a copy taken while the linker was still writing would not run
+            if os.access(dst, os.X_OK) and subprocess.run([dst], input="", capture_output=True, text=True,
+                                                          timeout=60).returncode == 0:
+                DRIVER = [dst]
+                return
+        except (OSError, subprocess.SubprocessError):
+            pass
+        time.sleep(1)
+
+
+# the clause that is the property's own sentence ("every header produced by the pipeline replaces any same-named header
+# sent by the client"): reported in preference to the stricter clauses it implies, so that a shrunk replay still shows
+# the client's value arriving at the upstream
+CLIENT_VALUE = ("headers: no value the client sent reaches the upstream under a name the pipeline produced, whatever "
+                "the pipeline rendered")
+
+
 def gen_cases(R, n):
     return [gen_proxyfwd.gen_case(R.rng, R.rng.choice(FLAVOURS)) for _ in range(n)]
 
 
 def evaluate(exe, cases):
     """-> list of (impl, model_res, model_stats, spec_violations, spec_applicable)"""
-    impl = vlib.run_cases([exe], cases)
-    model = vlib.run_cases(vlib.driver_cmd(), cases)
+    # the model does not depend on what the implementation answers: both run side by side; a large batch is spread
+    # over several harness processes (each starts its own proxy services and upstream listeners on ports of its own)
+    k = IMPL_PROCESSES if len(cases) >= 400 else 1
+    size = (len(cases) + k - 1) // k or 1
+    parts = [cases[j:j + size] for j in range(0, len(cases), size)]
+    with concurrent.futures.ThreadPoolExecutor(max_workers=len(parts) + 1) as pool:
+        fmodel = pool.submit(vlib.run_cases, driver_cmd(), cases)
+        impl = [r for part in pool.map(lambda p: vlib.run_cases([exe], p), parts) for r in part]
+        model = fmodel.result()
     obs = [dict(c, obs=i) for c, i in zip(cases, impl)]
-    spec = vlib.run_cases(vlib.driver_cmd(), obs)
+    spec = vlib.run_cases(driver_cmd(), obs)
     out = []
     for i, m, s in zip(impl, model, spec):
         mres = vlib.res_of(m)
@@ -64,7 +110,7 @@ def signature(ev):
         return ("unmodelled", "the model declines the case")
     real = [v for v in sres if v not in DEVIATIONS]
     if real:
-        return ("spec", real[0])
+        return ("spec", CLIENT_VALUE if CLIENT_VALUE in real else real[0])
     if vlib.canon(i) != vlib.canon(mres):
         return ("model", diff_field(i, mres))
     if sres:
@@ -108,14 +154,25 @@ def _variants(c):
             v(lambda d: d["req"].__setitem__("headers", []))
             for k in range(n):
                 v(lambda d, k=k: d["req"]["headers"].pop(k))
+    # the template sources / finalizer indices of real finalizers run parallel to the headers and cookies
+    def drop(d, what, par, k=None):
+        for f in (what,) + par:
+            if f in d["pipe"]:
+                if k is None:
+                    d["pipe"][f] = []
+                elif k < len(d["pipe"][f]):
+                    d["pipe"][f].pop(k)
+
     if c["pipe"]["headers"]:
-        v(lambda d: d["pipe"].__setitem__("headers", []))
+        v(lambda d: drop(d, "headers", ("tmpl", "fin")))
         for k in range(len(c["pipe"]["headers"])):
-            v(lambda d, k=k: d["pipe"]["headers"].pop(k))
+            v(lambda d, k=k: drop(d, "headers", ("tmpl", "fin"), k))
     if c["pipe"]["cookies"]:
-        v(lambda d: d["pipe"].__setitem__("cookies", []))
+        v(lambda d: drop(d, "cookies", ("ctmpl",)))
         for k in range(len(c["pipe"]["cookies"])):
-            v(lambda d, k=k: d["pipe"]["cookies"].pop(k))
+            v(lambda d, k=k: drop(d, "cookies", ("ctmpl",), k))
+    if c["pipe"].get("fin"):
+        v(lambda d: d["pipe"].__setitem__("fin", list(range(len(d["pipe"]["headers"])))))
     v(lambda d: d["req"].__setitem__("body", ""))
     v(lambda d: d["req"].__setitem__("chunked", False))
     v(lambda d: d["pipe"].__setitem__("read_body", False))
@@ -156,8 +213,12 @@ def _variants(c):
         if len(h[1]) > 1:
             v(lambda d, k=k: d["req"]["headers"][k].__setitem__(1, "v"))
     for k, h in enumerate(c["pipe"]["headers"]):
-        if len(h[1]) > 1:
-            v(lambda d, k=k: d["pipe"]["headers"][k].__setitem__(1, "p"))
+        if len(h[1]) > 1 and h[1].strip(" \t"):
+            def simpler(d, k=k):
+                d["pipe"]["headers"][k][1] = "p"
+                if k < len(d["pipe"].get("tmpl", [])):
+                    d["pipe"]["tmpl"][k] = "p"
+            v(simpler)
     return out
 
 
@@ -183,14 +244,21 @@ def nontrivial(st):
     return st.get("outcome") in ("http", "https") and (
         st.get("escapes", 0) > 0 or st.get("stripHits", 0) > 0 or st.get("add", 0) > 0 or st.get("stripQHits", 0) > 0
         or st.get("collide", 0) > 0 or st.get("clientFwdHeaders", 0) > 0 or st.get("hopByHop", 0) > 0
+        or st.get("emptyReplacesClient", 0) > 0
         or st.get("forwardedUri", 0) > 0 or st.get("listenerTLS", 0) > 0)
 
 
 # ---------------------------------------------------------------------------------------------------------------
 
 def run(R):
+    phases = {}
+    t0 = time.time()
     lean_ok = vlib.step_lean(R, PID)
+    pin_driver(R)
+    phases["lean"] = round(time.time() - t0, 1)
+    t0 = time.time()
     exe = vlib.step_harness(R)
+    phases["harness_build"] = round(time.time() - t0, 1)
     if exe is None:
         R.violation("harness does not build against /repo (API used by the correspondence check changed)",
                     {"build_log": R.harness_log[-3000:]}, no_input=True)
@@ -207,6 +275,7 @@ def run(R):
         streams.append(("random", gen_cases(R, k)))
         remaining -= k
 
+    t0 = time.time()
     dist = collections.Counter()
     outcomes = collections.Counter()
     slashes = collections.Counter()
@@ -256,6 +325,7 @@ def run(R):
         if len(failures) >= 6:
             break
 
+    phases["cases"] = round(time.time() - t0, 1)
     # a failure counts only if a fresh process reproduces it (the loopback network of the sandbox is shared)
     flaky = []
     for sig, (c, ev) in list(failures.items()):
@@ -272,12 +342,15 @@ def run(R):
                 "Connection lists and hop-by-hop headers; any method token; binary / chunked bodies up to 70 kB) sent from a "
                 "chosen loopback peer address over a plain or TLS listener to the real proxy service configured with a "
                 "trusted-proxy list, a rule with allow_encoded_slashes / forward_to.host / rewrite and a pipeline of real "
-                "header/cookie finalizers (or a scripted one) whose header names collide with the client's (User-Agent, "
-                "Accept-Encoding, Cookie, Host included); a decoy listener stands behind Host values; "
+                "header/cookie finalizers obtained from the real mechanism factory and configured in the rule with templates "
+                "over the subject's attributes and the request that render to ordinary, empty, blank and blank-padded values "
+                "and to joined lists (or a scripted finalizer) whose header names collide with the client's in any casing "
+                "(User-Agent, Accept-Encoding, Cookie, Host included); a decoy listener stands behind Host values; "
                 "the request read by a raw upstream test server is compared with the Lean model and judged by the Lean "
                 "specification. non-trivial = the request was forwarded AND (its path contains escapes, or a prefix was "
-                "stripped/added, or a listed query parameter was present, or a pipeline header collided with a client header, "
-                "or the client sent forwarding / hop-by-hop headers, or the listener is TLS); distinct by hash of the case; "
+                "stripped/added, or a listed query parameter was present, or a pipeline header (possibly rendered empty) collided "
+                "with a client header, or the client sent forwarding / hop-by-hop headers, or the listener is TLS); distinct "
+                "by hash of the case; "
                 "cases heimdall rejects at rule load time are skipped and counted, cases in a recorded deviation class are "
                 "counted as known findings when implementation = model",
         "outcomes": dict(outcomes), "allow_encoded_slashes": dict(slashes),
@@ -285,7 +358,7 @@ def run(R):
         "unmodelled_cases": len(unmodelled), "skipped_cases": dict(skipped), "known_deviation_cases": dict(known),
         "corpus_cases": len(corpus), "failing_cases": nfail, "not_reproduced": len(flaky), "not_reproduced_samples": flaky[:3],
         "samples": [sample if sample is not None else (corpus[0] if corpus else None)],
-        "exhaustive": False,
+        "exhaustive": False, "phase_seconds": phases,
     })
     if R.tier == "thorough":
         R.coverage["small_scope"] = ("every escape %00..%FF (both hex cases) and every raw octet 0x21..0xFF except DEL as one "
@@ -298,8 +371,13 @@ def run(R):
         "that need sanitising are outside the generated space",
         "tracing is not initialised in the harness: the otelhttp transport does not touch Traceparent/Tracestate/Baggage "
         "(production sets a propagator that overwrites them)",
-        "the pipeline is represented by what it produced (AddHeaderForUpstream / AddCookieForUpstream calls in order); "
-        "real header and cookie finalizers are used with constant templates",
+        "the pipeline is represented by what it produced (AddHeaderForUpstream / AddCookieForUpstream calls in order): for the "
+        "real header and cookie finalizers that is one call per configured name with the value its template renders to; "
+        "the rendered value is known by construction of the template (tools/gen_proxyfwd.py Templates: constants, "
+        "subject attributes read plainly / under `with` / with `default` / between trim markers, the subject id, "
+        "`join` and `range` over list attributes, `.Request.Header`), Go's text/template and sprig are not modelled; "
+        "a template source that is the empty string (heimdall answers 500) and rendered values containing CR/LF "
+        "(refused by the HTTP client, 502) are outside the generated space, as is a pipeline Host of blanks only",
         "X-Forwarded-Uri values of trusted peers are modelled for origin-form values without fragment only",
         "Content-Length / Transfer-Encoding lines are not compared (the body is compared as bytes)",
     ]
@@ -308,7 +386,8 @@ def run(R):
         R.violation(f"{len(unmodelled)} generated case(s) lie outside the modelled input space: the generator and the model "
                     "no longer agree on the space, the cases were not judged", {"case": unmodelled[0]}, no_input=True)
     order = {"spec": 0, "model": 1, "harness": 2}
-    for sig, (c, ev) in sorted(failures.items(), key=lambda kv: order.get(kv[0][0], 3))[:3]:
+    for sig, (c, ev) in sorted(failures.items(),
+                               key=lambda kv: (order.get(kv[0][0], 3), kv[0][1] != CLIENT_VALUE))[:3]:
         sc = shrink(exe, c, sig)
         i, mres, st, sres, _ = evaluate(exe, [sc])[0]
         payload = {"case": sc, "impl": i, "model": mres, "spec_violations": sres, "kind": sig[0], "original_case": c}
@@ -328,6 +407,7 @@ def run(R):
 def replay(R, path):
     with open(path) as fh:
         p = json.load(fh)
+    pin_driver(R)
     exe = vlib.step_harness(R)
     c = p["case"]
     i, mres, st, sres, _ = evaluate(exe, [c])[0]
